@@ -64,8 +64,9 @@ def rpn(e):
 class Style:
     """Knobs of the unparser.  rng may be None (canonical layout)."""
 
-    def __init__(self, rng=None, redundant=0.0, brace_atoms=0.0, bracket_calls=0.0):
+    def __init__(self, rng=None, redundant=0.0, brace_atoms=0.0, bracket_calls=0.0, with_in=0.0):
         self.rng = rng
+        self.with_in = with_in              # probability of `repeat with x in <lights>` for `repeat in <lights> as x`
         self.redundant = redundant          # probability of redundant parentheses
         self.brace_atoms = brace_atoms      # probability of {x} round a single value
         self.bracket_calls = bracket_calls  # probability of [f a] for a call statement
@@ -250,6 +251,10 @@ def unparse_stmt(s, style, indent=0):
                 head += ' ' + rvalue(s['a'], style)
         elif form == 'iter':
             srcs = s['sources']
+            if s['wk'] == 'none' and all(x['kind'] in ('light', 'group', 'location') for x in srcs) and style.flip(style.with_in):
+                # the undocumented second spelling of a plain light loop
+                head += ' with %s in ' % s['lvar'] + ' and '.join(source_text(x, style) for x in srcs)
+                return pad + head + block_text(s['body'], style, indent)
             if len(srcs) == 1 and srcs[0]['kind'] == 'all':
                 head += ' all'
             elif len(srcs) == 1 and srcs[0]['kind'] in ('groups', 'locations'):
